@@ -14,20 +14,21 @@ isomorphism method (all renamings brute-forced, <= 6 quantum registers).  Report
 comparison must be reflexive on copies, symmetric, and insensitive to wrapping / identities where the method normalises;
 every circuit dropped by a filter must be equivalent to one that is kept.
 
-Known finding (D22, generalised — see handoff/export.md): the coded node/edge matchers of `circuit_is_isomorphic` do not
-see which wire continues through a two-register node nor the roles at classically controlled operations; the model
-mirrors this, `Properties/C15.lean` refutes the full statement with kernel-checked witnesses, and those witnesses are
-replayed on the implementation on every run.
+D22 / D22′ (fixed in /repo 0d0996e, handoff/repairs/d22): the matcher of `circuit_is_isomorphic` used to see neither which
+wire continues through a two-register node nor the roles at classically controlled operations.  After the repair every
+edge carries the pair (role of its register at the operation it leaves, role at the operation it enters), roles c/t/m.
 
 Two variants of the implementation are supported (`variant()` probes which one is under test by looking at the attribute
 `add_control_target_to_dag` writes on the D22 witness):
-  coded     the matcher as it stands in /repo: compared with `circuitIsIsomorphic` / `isoNormalised` / `removeRedundant`;
-            the finding above reproduces and is reported as KNOWN-FINDING;
-  repaired  the matcher after handoff/repairs/d22/patch.diff (every edge carries the pair of roles at its two ends):
-            compared with `circuitIsIsomorphic2` / `isoNormalised2` / `removeRedundant2` (`iso2`, `isonorm2`, `kept2`,
-            `stiso2`, graph dumps with `ct=2`); for this matcher `Properties/C15.lean` *proves* soundness, so a false-equal
-            is a plain VIOLATION (no finding key covers it), the witnesses must be told apart, and on every pair the model's
-            own answer is checked against the model's brute-force `renEq` (reported isomorphic => equal up to renaming).
+  repaired  (what /repo is now) compared with `circuitIsIsomorphic2` / `isoNormalised2` / `removeRedundant2` (`iso2`,
+            `isonorm2`, `kept2`, `stiso2`, graph dumps with `ct=2`).  For this matcher `Properties/C15.lean` *proves* the
+            full statement (`iso_sound`, `iso_normalised_sound`, `dedup_sound`), so a false-equal is a plain VIOLATION (no
+            finding key covers it), the witnesses must be told apart, and on every pair the model's own answer is checked
+            against the model's brute-force `renEq` (reported isomorphic => equal up to renaming).
+  coded     the matcher before the repair: compared with `circuitIsIsomorphic` / `isoNormalised` / `removeRedundant`, for
+            which `Properties/C15.lean` keeps the kernel-checked refutation (`iso_sound_refuted`).  The key
+            `is_isomorphic:wire-continuity:false-equal` is emitted only for this variant; it is no longer in
+            known_findings.txt, so a regression of the repair is reported as a VIOLATION.
 """
 import itertools
 
@@ -37,19 +38,25 @@ from harness.common import Driver, Result, err_class
 LEVEL = "proof"
 TRUSTED_BASE = [
     "Lean 4.33 kernel",
-    "hand-written model GraphiqModel/Model/Compare.lean (multigraph with ordered edges, direct, coded iso matcher, filters) tied to "
-    "circuit_comparison.py / circuit_dag.py by this correspondence run (graphs compared node by node and key by key)",
+    "hand-written model GraphiqModel/Model/Compare.lean (multigraph with ordered edges, direct, the isomorphism matcher before and after the "
+    "D22' repair, filters) tied to circuit_comparison.py / circuit_dag.py by this correspondence run (graphs compared node by node, key by key "
+    "and attribute by attribute, before and after normalisation; all comparison results, filters and storages exactly)",
     "networkx.is_isomorphic assumed to decide existence of a bijection satisfying node_match/edge_match and preserving edge multiplicities "
-    "(checked against the model's backtracking search on every pair)",
-    "equal per-register operation sequences imply equal compiled states (commutation of operations on disjoint registers; C13/C01), evaluated "
-    "here by the direct oracle only",
+    "(the theorems are about every bijection that passes the check `isoCheck2`, never about the search; the model's backtracking search is "
+    "compared with networkx' answer on every pair)",
+    "'same compiled state' from 'same operation sequence on every register': proved for every semantics in which operations on disjoint quantum "
+    "registers commute (Properties/C15.iso_sound_same_compiled_state); that the stabilizer semantics is such a semantics is C13 "
+    "(stabilizer_ops_on_disjoint_registers_commute) — the two models of an operation (Export.Op here, Wire.SOp there) are not linked by a theorem; "
+    "the direct oracle below evaluates the compiled states themselves",
     "StabilizerCompiler + harness/tabutil.span_canon as the state oracle; harness, line protocol",
 ]
 ASSUMPTIONS = [
-    "quantifier: circuits over the 13 non-parameterised operation classes and OneQubitGateWrapper on <= 6 quantum registers (oracle bound); "
-    "parameterised rotations are outside (direct/is_isomorphic ignore parameters and direct's isinstance test is asymmetric for RX/RY/RZ vs "
-    "ParameterizedOneQubitRotation — recorded in handoff/export.md)",
-    "'same state' = same distribution over final stabilizer states; the classical record is not part of the state (direct ignores c_registers)",
+    "quantifier: circuits over the 13 non-parameterised operation classes and OneQubitGateWrapper whose operations act on registers of the "
+    "circuit and on pairwise different ones (control != target) — `WellFormed`; state oracle on <= 6 quantum registers; parameterised rotations "
+    "are outside (direct/is_isomorphic ignore parameters and direct's isinstance test is asymmetric for RX/RY/RZ vs ParameterizedOneQubitRotation "
+    "— recorded in handoff/export.md)",
+    "'same state' = same distribution over final stabilizer states; the classical record is not part of the state (direct ignores c_registers; "
+    "the repaired isomorphism comparison does distinguish classical registers — it is finer, which is sound)",
     "GED-based methods are evaluated by the oracle only (networkx graph_edit_distance with a 10 s timeout is not modelled)",
 ]
 
